@@ -8,6 +8,7 @@ import (
 	"os"
 	"os/exec"
 	"path/filepath"
+	"regexp"
 	"sort"
 	"strings"
 	"sync"
@@ -101,6 +102,34 @@ func C13(run *vf.Run) {
 	if st.Violated != "CacheInvisible" {
 		run.Inconclusive("Memo self-test: TLC did not find the cross-talk of the text-only key design (%s): the model is vacuous", st.Describe())
 	}
+	// binding of Memo.tla's Sites to the code: every call into the pattern cache in the source tree must be one the
+	// model knows (a new call site with a key design of its own would not be covered by the configurations below)
+	wantSites := map[string]int{"internal/actions/ctl.go": 1, "internal/operators/validate_schema.go": 1, "internal/operators/pm.go": 1, "internal/operators/validate_nid.go": 1,
+		"internal/operators/restpath.go": 1, "internal/operators/rx.go": 2, "internal/operators/pm_from_dataset.go": 1, "internal/operators/pm_from_file.go": 1,
+		"internal/seclang/directives.go": 1, "internal/corazawaf/rule.go": 2}
+	gotSites := map[string]int{}
+	reSite := regexp.MustCompile(`(memoizeDo\(|[mM]emoizer\(\)\.Do\(|memoizer\.Do\()`)
+	_ = filepath.WalkDir(repoRoot(), func(path string, d os.DirEntry, err error) error {
+		if err != nil || d.IsDir() || !strings.HasSuffix(path, ".go") || strings.HasSuffix(path, "_test.go") || strings.Contains(path, "verif") || strings.Contains(path, "/memoize/") {
+			return nil
+		}
+		b, _ := os.ReadFile(path)
+		for _, line := range strings.Split(string(b), "\n") {
+			t := strings.TrimSpace(line)
+			if strings.HasPrefix(t, "func ") || strings.HasPrefix(t, "//") || strings.HasPrefix(t, "return r.memoizer.Do(") {
+				continue
+			}
+			if reSite.MatchString(t) {
+				rel, _ := filepath.Rel(repoRoot(), path)
+				gotSites[rel]++
+			}
+		}
+		return nil
+	})
+	if fmt.Sprint(gotSites) != fmt.Sprint(wantSites) {
+		run.Inconclusive("the pattern-cache call sites in the source tree (%v) are not the ones Memo.tla models (%v): extend Sites / Configs", gotSites, wantSites)
+		return
+	}
 	maxW := vf.Pick(run, 2, 3)
 	var hists [][][]any
 	var mu sync.Mutex
@@ -169,7 +198,7 @@ func C13(run *vf.Run) {
 		return
 	}
 	// reference: every configuration alone, in a fresh process, with and without the cache
-	nCfg := 17
+	nCfg := 18
 	alone := map[int]string{}
 	for c := 1; c <= nCfg; c++ {
 		a, e1 := runProbe(binMemo, [][]any{{"build", c}})
